@@ -742,3 +742,22 @@ def language_pitfall_rules(ctx, rule, paths, only=None):
             n += 1
             ctx.inst(rule, f, 'finally-does-not-swallow', not fin, 'leaving a finally block with return / break / continue discards the exception in flight: %s' % fin)
     return n
+
+
+def new_state_locals(func):
+    """locals of ``func`` (after normalisation) that the reference function does not have and that are bound more than once: new state
+    the function carries along (a shadow counter, a remembered length).  A guard written in terms of such a local says something
+    the rules cannot read off: the honest outcome is no verdict."""
+    from .alpha import _ref as _names, binding_order
+    want = (_names().get(func.module.path) or {}).get(func.qualname)
+    if want is None:
+        return set()
+    have = binding_order(func.node)
+    out = set()
+    for n in have:
+        if n in want:
+            continue
+        stores = [x for x in walk_own(func.node) if isinstance(x, ast.Name) and x.id == n and isinstance(x.ctx, ast.Store)]
+        if len(stores) > 1:
+            out.add(n)
+    return out
